@@ -1476,7 +1476,7 @@ def run(ck):
                         'compared with a molecule rebuilt from scratch after every history (random: after every step), plus stereo seeds and reactions')
     import time
     t0 = time.time()
-    proved = common.standard_proof_steps(ck, translators=['cache'])
+    proved = common.standard_proof_steps(ck, translators=['cache', 'cacheops'])
     t1 = time.time()
     cr = Corr(ck)
     explore_exhaustive(cr, 3 if quick else 4, 3)
